@@ -13,6 +13,8 @@ import (
 	disttypes "github.com/chain4energy/c4e-chain/x/cfedistributor/types"
 	sigtypes "github.com/chain4energy/c4e-chain/x/cfesignature/types"
 	sdk "github.com/cosmos/cosmos-sdk/types"
+	authtypes "github.com/cosmos/cosmos-sdk/x/auth/types"
+	vestingtypes "github.com/cosmos/cosmos-sdk/x/auth/vesting/types"
 	banktypes "github.com/cosmos/cosmos-sdk/x/bank/types"
 	govv1 "github.com/cosmos/cosmos-sdk/x/gov/types/v1"
 	abci "github.com/tendermint/tendermint/abci/types"
@@ -51,7 +53,12 @@ func newRich(c *fw.Case, record bool) (*rich, error) {
 	if sds == nil {
 		return nil, fmt.Errorf("no valid sub-distributor configuration")
 	}
-	e, err := newVestEnvOpts(c.R, vestOpts{Minter: minterGenesis(mc.Params, gen.Epoch), Distributor: &disttypes.GenesisState{Params: disttypes.Params{SubDistributors: cloneSubs(sds)}}, Record: record})
+	// the distributor's "locked source": a continuous vesting account whose coins stay locked
+	// (a base-account source of that kind has a balance, but nothing spendable to sweep)
+	lockedCoins := sdk.NewCoins(sdk.NewCoin("uc4e", sdk.NewInt(777)))
+	bva := vestingtypes.NewBaseVestingAccount(authtypes.NewBaseAccount(dk.vesting.Addr, nil, 0, 0), lockedCoins, gen.Epoch.Add(200*365*24*time.Hour).Unix())
+	extra := []chain.GenAccount{{Account: vestingtypes.NewContinuousVestingAccountRaw(bva, gen.Epoch.Add(100*365*24*time.Hour).Unix()), Coins: lockedCoins}}
+	e, err := newVestEnvOpts(c.R, vestOpts{Minter: minterGenesis(mc.Params, gen.Epoch), Distributor: &disttypes.GenesisState{Params: disttypes.Params{SubDistributors: cloneSubs(sds)}}, Record: record, Extra: extra})
 	if err != nil {
 		return nil, err
 	}
